@@ -16,6 +16,32 @@ CHECKS = {
          "Bounded random search; every resolve_property call must be covered by required_properties() at call time.", "Trusts the recording wrapper.", "3/C05"),
  "C09": ("generated worlds with stress arguments, no-panic oracle (catch_unwind with location attribution)",
          "Bounded random search for panics during execution of accepted queries, run to exhaustion and with early drops.", "Trusts that GraphAdapter honours the adapter contract; listed findings are tolerated only on their exact signatures.", "3/C09"),
+ "C06": ("exhaustive enumeration of a small candidate universe plus random candidates, against a reference membership model (guarded re-exports)",
+         "Exhaustive for all candidates over null + 5 ordered values (integer universe with mixed encodings, string universe) x all probes; random search over boundary integers and strings beyond that.", "Trusts the membership model written on the public CandidateValue enum; needs the __verif hooks.", "3/C06"),
+ "C07": ("exhaustive integer boundary grid plus random operand pairs against reference operator definitions, direct (hooks) and end-to-end through the engine",
+         "Exhaustive over all boundary-integer pairs in both encodings for the six comparison operators; random search for the remaining operators and operand kinds, and for the engine's dispatch tables via one-vertex worlds.", "Trusts the reference operators (values.rs) incl. the restricted-grammar regex matcher; needs the __verif hooks.", "3/C07"),
+ "C08": ("algebraic laws on generated triples of field values, exhaustive on the integer boundary grid",
+         "Exhaustive over all triples of boundary integers in both encodings; random search over all value kinds and nested lists.", "Public API only.", "3/C08"),
+ "C10": ("grammar-based and mutation-based query text generation with a no-panic oracle",
+         "Bounded random search over loosely generated documents, token-level mutations of the repository's own queries, and raw strings; finds reachable panics in the frontend's own code, not in the third-party parser.", "Trusts catch_unwind attribution; nesting depth is bounded.", "3/C10"),
+ "C11": ("invariant checker over the public IR fields on every accepted generated or mutated query",
+         "Bounded random search; the checker is written from the property statement, independent of ir/indexed.rs.", "Trusts the checker's reading of the statement.", "3/C11"),
+ "C12": ("generated argument-map edits against a harness type model and the documented variable-type inference",
+         "Bounded random search over (query, edited argument map) pairs; verdict and the named variables must match.", "Trusts the harness type model and inference rule (values.rs, query_ast.rs).", "3/C12"),
+ "C13": ("invariant over result rows against declared output types and an independent derivation of those types",
+         "Bounded random search on generated worlds with schema-conforming data.", "Trusts the harness type model and the documented nullability/list rule.", "3/C13"),
+ "C14": ("repeated evaluation with fresh hash seeds in-process and digest comparison across separately spawned processes",
+         "Bounded random search over valid queries, hostile query text and mutated schemas; each case digested 8x in-process and in 3-5 processes.", "Trusts that digests cover IR/error text, rows and adapter call traces; process-level hash seeds vary per process.", "3/C14"),
+ "C15": ("round trip through the tracing adapter, RON serialisation and trace replay on generated worlds",
+         "Bounded random search; replay uses only the trace (TraceReaderAdapter).", "Trusts the repo's assert_interpreted_results as the replay driver.", "3/C15"),
+ "C16": ("round-trip oracles on generated values, types and compiled queries (RON, JSON, untagged JSON, Display/parse)",
+         "Bounded random search with bit-exact float comparison; types up to the documented maximum list depth.", "Public API only; ron and serde_json as used by the repo.", "3/C16"),
+ "C17": ("exhaustive enumeration of 90 types (pairs, triples, values) against a pointwise lattice model, plus random deep types (guarded re-exports)",
+         "Exhaustive for 3 base names x list depth 0-3 x all nullability patterns; random up to depth 30.", "Trusts the Ty model; needs the __verif hooks.", "3/C17"),
+ "C18": ("generated (target type, value) pairs against a representability model",
+         "Bounded random search aimed at integer boundaries, overflow by one, tuple lengths and nulls for 40 target types.", "Trusts the model of representability; cross-kind conversions are not asserted.", "3/C18"),
+ "C19": ("labelled schema mutations against an independent reference validator, with a no-panic oracle",
+         "Bounded random search over valid-by-construction schemas with 0-3 of 44 mutation kinds; verdict must equal the reference validator's, which is cross-checked against the labels.", "Trusts the reference validator's reading of the documented rules.", "3/C19"),
  "C21": ("invariant over recorded adapter call histories checked against the schema AST and dataset",
          "Bounded random search; every adapter call must name defined types/fields, legal coercions, exactly the declared parameters with predicted values, and instances of the named type.", "Trusts the schema AST model and the recording wrapper.", "3/C21"),
 }
